@@ -180,9 +180,14 @@ func (s *Sym) stableLoad(load *ssa.UnOp) bool {
 		}
 		return s.dom(st.Block(), load.Block())
 	case *ssa.Parameter, *ssa.Global, *ssa.FreeVar:
-		for k := range s.pstores {
+		for k, sts := range s.pstores {
 			if overlaps(k, s.rootKey(r)+path) {
-				return false
+				// a store that can execute before the load makes equal-symbol loads differ
+				for _, st := range sts {
+					if s.canPrecede(st, load) {
+						return false
+					}
+				}
 			}
 		}
 		return true
@@ -423,4 +428,34 @@ func (s *Sym) call(x *ssa.Call) string {
 	}
 	s.dep(x, x)
 	return CalleeName(fn) + "(" + strings.Join(args, ",") + ")@" + uid(x)
+}
+
+// canPrecede: instruction a may execute before instruction b in some run of the function.
+func (s *Sym) canPrecede(a, b ssa.Instruction) bool {
+	if a.Block() == b.Block() {
+		for _, in := range a.Block().Instrs {
+			if in == a {
+				return true
+			}
+			if in == b {
+				break
+			}
+		}
+	}
+	// CFG reachability a.Block -> b.Block via at least one edge
+	seen := map[*ssa.BasicBlock]bool{}
+	stack := append([]*ssa.BasicBlock(nil), a.Block().Succs...)
+	for len(stack) > 0 {
+		x := stack[len(stack)-1]
+		stack = stack[:len(stack)-1]
+		if seen[x] {
+			continue
+		}
+		seen[x] = true
+		if x == b.Block() {
+			return true
+		}
+		stack = append(stack, x.Succs...)
+	}
+	return false
 }
